@@ -949,3 +949,94 @@ func forwardParityOK(fn *ssa.Function) bool {
 	}
 	return n > 0 && okAll
 }
+
+// macKeptOnFailure: the MAC a writer chains on (the request's MAC, or that of the envelope before) is replaced only
+// by the MAC of a message that was actually signed: where TsigGenerateWithProvider failed its (empty) MAC result
+// is not stored.
+func macKeptOnFailure(c *Ctx, r *Report, rule string) {
+	r.rule(rule, 3, "the MAC result of TsigGenerateWithProvider is stored into tsigRequestMAC only on the err == nil edge")
+	n := 0
+	for _, name := range []string{"response.WriteMsg", "Transfer.WriteMsg", "Conn.WriteMsg"} {
+		fn := c.ssaFunc(name)
+		if fn == nil {
+			r.cerr(rule, name, "function not found")
+			continue
+		}
+		r.fn(name)
+		for _, ci := range callsIn(fn, "TsigGenerateWithProvider") {
+			call, ok := ci.(*ssa.Call)
+			if !ok {
+				continue
+			}
+			var mac, errV ssa.Value
+			for _, ref := range *call.Referrers() {
+				if ex, isEx := ref.(*ssa.Extract); isEx {
+					switch ex.Index {
+					case 1:
+						mac = ex
+					case 2:
+						errV = ex
+					}
+				}
+			}
+			if mac == nil {
+				continue
+			}
+			for _, ref := range *mac.Referrers() {
+				st, ok := ref.(*ssa.Store)
+				if !ok {
+					continue
+				}
+				fa, ok := st.Addr.(*ssa.FieldAddr)
+				if !ok || fieldNameOf(fa) != "tsigRequestMAC" {
+					continue
+				}
+				n++
+				okEdge := false
+				for _, f := range factsAt(fn, st.Block()) {
+					if bin, ok := f.Atom.(*ssa.BinOp); ok && errV != nil && bin.X == errV && isNilConst(bin.Y) {
+						if (bin.Op == token.EQL && f.Holds) || (bin.Op == token.NEQ && !f.Holds) {
+							okEdge = true
+						}
+					}
+				}
+				r.check(okEdge, rule, name+":tsigRequestMAC", c.pos(st.Pos()), "only after a successful signature", "%s stores the MAC result of TsigGenerateWithProvider before looking at its error: when signing fails the MAC it chains on is wiped, and the fallback answer written next on the same writer (a SERVFAIL) is signed without the request MAC and does not verify at the client", name)
+			}
+		}
+	}
+	if n == 0 {
+		r.undecided(rule, "WriteMsg", "", "no store of a generated MAC into tsigRequestMAC found")
+	}
+}
+
+// drainChannelCaptured: ShutdownContext waits for the drain channel of the generation it shut down: it reads
+// srv.shutdown while it still holds the lock (a restart replaces the field as soon as the lock is free), as it does
+// for the packet connection.
+func drainChannelCaptured(c *Ctx, r *Report, rule string) {
+	r.rule(rule, 1, "ShutdownContext reads srv.shutdown only while it holds srv.lock")
+	fn := c.ssaFunc("Server.ShutdownContext")
+	if fn == nil {
+		r.cerr(rule, "Server.ShutdownContext", "function not found")
+		return
+	}
+	r.fn("Server.ShutdownContext")
+	li := computeLocks(fn, "Server", "lock", lkNone)
+	n := 0
+	var bad []string
+	allInstrs(fn, func(in ssa.Instruction) {
+		ld, ok := in.(*ssa.UnOp)
+		if !ok || ld.Op != token.MUL || !readsField("Server", "shutdown")(ld.X) {
+			return
+		}
+		n++
+		if li.at[in] < lkR {
+			bad = append(bad, c.pos(in.Pos()))
+		}
+	})
+	if n == 0 {
+		r.undecided(rule, "Server.ShutdownContext", c.pos(fn.Pos()), "no read of srv.shutdown found")
+		return
+	}
+	sort.Strings(bad)
+	r.check(len(bad) == 0, rule, "Server.ShutdownContext:shutdown", c.pos(fn.Pos()), "read under the lock", "srv.shutdown is read at %s after the lock was released: a supervisor that restarts the server as soon as the serve call returns replaces the channel (init) before the select reads it, and the Shutdown of the first generation then waits for the drain of the second", strings.Join(bad, ", "))
+}
